@@ -156,3 +156,17 @@ package scheduler
 //@ callreq s.setResolvedEpoch: a1 == math.MaxInt64 && ncalls(s.trimDuties) == 1
 //@ ensures ncalls(s.trimDuties) == ncalls(s.setResolvedEpoch)
 
+// currentSlot: the slot is the whole number of slot durations elapsed since genesis, and starts at genesis plus that
+// many slot durations.
+//@ pure time.Time.Add
+//@ func newSlotTicker$1
+//@ props C15
+//@ requires slotDuration > 0
+//@ callreq clock.Since: a1 == genesisTime
+//@ ghost age time.Duration
+//@ ghostafter clock.Since: age = chainAge
+//@ ensures ncalls(clock.Since) == 1
+//@ ensures result.SlotsPerEpoch == slotsPerEpoch && result.SlotDuration == slotDuration
+//@ ensures result.Slot == uint64(int64(age / slotDuration))
+//@ ensures result.Time == genesisTime.Add(time.Duration(int64(age / slotDuration)) * slotDuration)
+
